@@ -84,8 +84,8 @@ def run(ctx):
         "arithmetic (Int, Rat) and the model-vs-code streams only use inputs on which every float operation is exact",
         "what is evidenced under float rounding, exactly (no tolerance), by the implementation-side oracle `floatspec` "
         "on non-dyadic float64/float32 inputs of tiny, large and mixed magnitudes: Rect Contains / Intersects / "
-        "Intersect / Union / Point.In (below); Contour.Bounds and Polygon.Bounds (every vertex In the bounds — see the "
-        "known finding about the absorbed 1); Polygon.Transform (every result vertex bit-identical to "
+        "Intersect / Union / Point.In (below); Contour.Bounds (every vertex In the bounds, strict) and Polygon.Bounds "
+        "(counted where Union's far edge is short); Polygon.Transform (every result vertex bit-identical to "
         "Matrix.TransformPoint of the original vertex, operand untouched, no shared storage); the identity matrix "
         "(identity.TransformPoint(p) = p, identity*m = m = m*identity, Translate(0,0), Scale(1,1)); Contour.Contains / "
         "Polygon.Contains / ContainsEvenOdd away from edges (exact crossing number in big.Rat; a case is judged only "
@@ -93,12 +93,13 @@ def run(ctx):
         "it, otherwise counted as near-edge). NOT evidenced under rounding: the composition laws of Multiply / "
         "Translate / Scale (for them only the exact-arithmetic theorems plus exactly representable inputs are "
         "checked; Rotate has the relative 16-ulp oracle `rotate`)",
-        "Contour.Bounds computes Width = 1+maxX-minX; for coordinates of large magnitude the 1 is absorbed by "
-        "rounding, so the far vertices are not In the half-open bounds, or the bounds are Empty and Polygon.Bounds "
-        "ignores the contour. Four inputs are judged strictly on every run "
-        "(corpus/C18/floatspec.known-bounds-absorbed.ops, op words pb64s/pb32s; known finding by call site or fixed "
-        "in /repo); generated inputs of the class are counted (oracle_floatspec_cbounds-short / cbounds-empty / "
-        "pbounds-short, the latter also inheriting Union's short far edge), not alarmed",
+        "Contour.Bounds: the absorbed 1 of Width = 1+maxX-minX at large magnitudes (far vertices not In the bounds, or "
+        "Empty bounds that Polygon.Bounds ignored) was repaired in /repo (commit c8f36a0); every generated bounds case "
+        "is judged strictly at contour level and the four inputs of the defect run on every check "
+        "(corpus/C18/floatspec.fixed-bounds-absorbed.ops, reverse patch seeded/revert-c18-bounds-absorbed). "
+        "Polygon.Bounds still inherits Rect.Union's one-ulp-short far edge: generated cases where a vertex is not In "
+        "Polygon.Bounds() are counted (oracle_floatspec_pbounds-short) under the existing Union known finding, not "
+        "alarmed",
         "the evidence for the 'floating-point coordinates' clause under rounding is the implementation-side oracle "
         "area `floatspec` (float64 and float32 rectangles with non-dyadic coordinates, tiny/large magnitudes, zero and "
         "negative sizes): Contains <=> non-empty and the four extreme representable points of b are In a; Intersects "
